@@ -12,7 +12,8 @@
       evaluation depends only on the position and the innermost rule) and once with a memoized run on the
       left and an un-memoized run on the right (soundness of the memo table).
 
-  Outcomes are related *up to fuel*: `ORel` holds as soon as one side ran out of fuel.
+  Outcomes are related up to the fuel of the RIGHT run: `ORel` holds when the right run ran out of fuel; otherwise
+  the left run has ended too, and alike (so termination transfers from right to left).
 -/
 import PigeonVerif.Proofs.FuelMono
 import PigeonVerif.Proofs.FrameProof
@@ -96,9 +97,10 @@ structure SRel (E : Env) where
       rel { a with rstack := l1 } { b with rstack := l2 }
   addErr : ∀ {a b} (m : String), rel a b → rel { a with errs := a.errs ++ [m] } { b with errs := b.errs ++ [m] }
 
-/-- outcomes related up to fuel; a normal return also leaves both rule stacks as they were in `s1`, `s2` -/
+/-- outcomes related up to the fuel of the RIGHT run: if the right run ended, so did the left one, and alike; a normal
+    return also leaves both rule stacks as they were in `s1`, `s2` -/
 def ORel {E : Env} (R : SRel E) (s1 s2 : PState) (o1 o2 : Outcome) : Prop :=
-  o1 = .oof ∨ o2 = .oof ∨
+  o2 = .oof ∨
   match o1, o2 with
   | .done v ok a, .done v' ok' b => v = v' ∧ ok = ok' ∧ R.rel a b ∧ a.rstack = s1.rstack ∧ b.rstack = s2.rstack
   | .panic p a, .panic p' b => p = p' ∧ R.rel a b
@@ -109,28 +111,27 @@ variable {E : Env} {R : SRel E}
 
 theorem ORel.done {s1 s2 a b : PState} (v : Val) (ok : Bool) (h : R.rel a b) (h1 : a.rstack = s1.rstack)
     (h2 : b.rstack = s2.rstack) : ORel R s1 s2 (.done v ok a) (.done v ok b) :=
-  Or.inr (Or.inr ⟨rfl, rfl, h, h1, h2⟩)
+  Or.inr ⟨rfl, rfl, h, h1, h2⟩
 
 theorem ORel.panic {s1 s2 a b : PState} (p : PanicVal) (h : R.rel a b) : ORel R s1 s2 (.panic p a) (.panic p b) :=
-  Or.inr (Or.inr ⟨rfl, h⟩)
+  Or.inr ⟨rfl, h⟩
 
 theorem ORel.bind {o1 o2 : Outcome} {k1 k2 : Val → Bool → PState → Outcome} {s1 s2 t1 t2 : PState}
     (h : ORel R t1 t2 o1 o2)
     (hk : ∀ v ok a b, R.rel a b → a.rstack = t1.rstack → b.rstack = t2.rstack → ORel R s1 s2 (k1 v ok a) (k2 v ok b)) :
     ORel R s1 s2 (o1.bind k1) (o2.bind k2) := by
-  rcases h with h | h | h
+  rcases h with h | h
   · subst h; exact Or.inl rfl
-  · subst h; exact Or.inr (Or.inl rfl)
   · cases o1 with
-    | oof => exact Or.inl rfl
+    | oof => cases o2 <;> first | exact Or.inl rfl | exact h.elim
     | panic p a =>
       cases o2 with
-      | oof => exact Or.inr (Or.inl rfl)
-      | panic p' b => exact Or.inr (Or.inr h)
+      | oof => exact Or.inl rfl
+      | panic p' b => exact Or.inr h
       | done v' ok' b => exact h.elim
     | done v ok a =>
       cases o2 with
-      | oof => exact Or.inr (Or.inl rfl)
+      | oof => exact Or.inl rfl
       | panic p' b => exact h.elim
       | done v' ok' b =>
         obtain ⟨rfl, rfl, hr, h1, h2⟩ := h
@@ -294,12 +295,12 @@ theorem choice_rel (s01 s02 : PState) (line col : Nat) :
         (by simp [ha', h1]) (by simp [hb', h2]) (by simp [ha', hh])
 
 theorem loop_rel (s01 s02 : PState) (e : Expr) (he : e.Ok own node isPred rn) :
-    ∀ (k1 k2 : Nat) (a b : PState) (acc : List Val), R.rel a b →
+    ∀ (k1 k2 : Nat) (a b : PState) (acc : List Val), k2 ≤ k1 → R.rel a b →
       a.rstack = s01.rstack → b.rstack = s02.rstack → a.rstack.head? = some r →
       ORel R s01 s02 (parseLoop (setMemo E m1) rec1 e k1 a acc) (parseLoop (setMemo E m2) rec2 e k2 b acc)
-  | 0, _, _, _, _, _, _, _, _ => Or.inl rfl
-  | _ + 1, 0, _, _, _, _, _, _, _ => Or.inr (Or.inl rfl)
-  | k1 + 1, k2 + 1, a, b, acc, h, h1, h2, hh => by
+  | _, 0, _, _, _, _, _, _, _, _ => Or.inl rfl
+  | 0, _ + 1, _, _, _, hk, _, _, _, _ => absurd hk (by omega)
+  | k1 + 1, k2 + 1, a, b, acc, hk, h, h1, h2, hh => by
     unfold parseLoop
     simp only []
     refine ORel.bind (hw e (pushV a) (pushV b) rn r (rel_junk h) he hf (by simpa using hh)) (fun v ok a' b' hr ha hb => ?_)
@@ -308,7 +309,7 @@ theorem loop_rel (s01 s02 : PState) (e : Expr) (he : e.Ok own node isPred rn) :
     cases ok with
     | true =>
       simp only [if_true]
-      exact loop_rel s01 s02 e he k1 k2 _ _ _ (rel_junk hr) (by simp [ha', h1]) (by simp [hb', h2]) (by simp [ha', hh])
+      exact loop_rel s01 s02 e he k1 k2 _ _ _ (by omega) (rel_junk hr) (by simp [ha', h1]) (by simp [hb', h2]) (by simp [ha', hh])
     | false =>
       simp only [Bool.false_eq_true, if_false]
       split
@@ -432,7 +433,7 @@ variable {rec1 rec2 : Expr → PState → Outcome}
 
 theorem body_rel (hp : PureCode E isPred)
     (hw : WrapRel R own node isPred (parseExprWrap (setMemo E m1) rec1) (parseExprWrap (setMemo E m2) rec2))
-    (k1 k2 : Nat)
+    (k1 k2 : Nat) (hk : k2 ≤ k1)
     (hrw : RuleRel R (parseRuleWrap (setMemo E m1) rec1 k1) (parseRuleWrap (setMemo E m2) rec2 k2))
     {rn : String} {r : Rule} (hf : E.findRule rn = some r)
     (e : Expr) (a b : PState) (he : e.Ok own node isPred rn) (h : R.rel a b) (hh : a.rstack.head? = some r) :
@@ -526,11 +527,11 @@ theorem body_rel (hp : PureCode E isPred)
     exact seq_rel hw hf a b a.pt hreach _ _ es a b [] he.2 h rfl rfl hh
   | oneOrMore id e1 =>
     simp only [Expr.Ok] at he
-    exact loop_rel hw hf a b e1 he.2 k1 k2 a b [] h rfl rfl hh
+    exact loop_rel hw hf a b e1 he.2 k1 k2 a b [] hk h rfl rfl hh
   | zeroOrMore id e1 =>
     simp only [Expr.Ok] at he
     simp only [parseExprBody, parseZeroOrMore]
-    refine ORel.bind (loop_rel hw hf a b e1 he.2 k1 k2 a b [] h rfl rfl hh) (fun v ok a' b' hr ha hb => ?_)
+    refine ORel.bind (loop_rel hw hf a b e1 he.2 k1 k2 a b [] hk h rfl rfl hh) (fun v ok a' b' hr ha hb => ?_)
     cases ok with
     | true => exact ORel.done _ _ hr ha hb
     | false => exact ORel.done _ _ hr ha hb
@@ -546,7 +547,7 @@ theorem body_rel (hp : PureCode E isPred)
 
 theorem step_rel (hc : MemoCfg E) (hp : PureCode E isPred)
     (hw : WrapRel R own node isPred (parseExprWrap (setMemo E m1) rec1) (parseExprWrap (setMemo E m2) rec2))
-    (k1 k2 : Nat)
+    (k1 k2 : Nat) (hk : k2 ≤ k1)
     (hrw : RuleRel R (parseRuleWrap (setMemo E m1) rec1 k1) (parseRuleWrap (setMemo E m2) rec2 k2))
     {rn : String} {r : Rule} (hf : E.findRule rn = some r)
     (e : Expr) (a b : PState) (he : e.Ok own node isPred rn) (h : R.rel a b) (hh : a.rstack.head? = some r) :
@@ -558,7 +559,7 @@ theorem step_rel (hc : MemoCfg E) (hp : PureCode E isPred)
   unfold parseExprStep
   rw [ho1, ho2]
   simp only [Bool.false_eq_true, if_false]
-  exact (body_rel hp hw k1 k2 hrw hf e (bump a) (bump b) he (rel_junk h (by rfl) (by rfl) (by rfl) (by rfl) (by rfl) (by rfl) (by rfl)) hh).reindex rfl rfl
+  exact (body_rel hp hw k1 k2 hk hrw hf e (bump a) (bump b) he (rel_junk h (by rfl) (by rfl) (by rfl) (by rfl) (by rfl) (by rfl) (by rfl)) hh).reindex rfl rfl
 
 end body
 
